@@ -24,6 +24,7 @@ INSTANTS = [
     (2020, 11, 1, 1, 30, 0, 0), (2021, 4, 4, 1, 45, 0, 0), (9999, 12, 31, 23, 59, 59, 999999), (2022, 6, 15, 12, 30, 45, 123456),
     (1969, 12, 31, 23, 59, 58, 500000), (1950, 6, 1, 0, 0, 0, 250000), (1970, 1, 1, 0, 0, 1, 750000), (1901, 12, 13, 20, 45, 51, 500000),
     (2023, 11, 14, 0, 0, 0, 0), (1999, 12, 31, 0, 0, 0, 0),
+    (2106, 2, 7, 6, 28, 15, 0), (2106, 2, 7, 6, 28, 16, 0), (3000, 1, 1, 0, 0, 0, 0), (9999, 12, 31, 23, 59, 59, 0), (1000, 1, 1, 0, 0, 0, 0),
 ]
 ZONES = ["None", "UTC", "Z('UTC')", "off(5,30)", "off(5,neg=True)", "off(14)", "off(12,neg=True)", "off(1,2,3)", "off(0,19,32,neg=True)",
          "Z('Europe/Amsterdam')", "Z('America/New_York')", "Z('Australia/Lord_Howe')", "Z('Europe/London')"]
@@ -129,6 +130,8 @@ def worker():
     desc = RecordDescriptor("c13/ts", [("datetime", "ts")])
     ldesc = RecordDescriptor("c13/tsl", [("datetime[]", "tsl")])
     odesc = RecordDescriptor("c13/o", [("string", "o")])
+    wdesc = RecordDescriptor("c13/w", [("string", "note"), ("datetime", "when")])
+    tsof = lambda r: r.ts if hasattr(r, "ts") else r.when  # noqa: E731
     gen = _d.datetime(2023, 4, 5, 6, 7, 8, 9, tzinfo=_d.timezone.utc)
     n = 0
     for spec in value_specs(seed):
@@ -167,6 +170,13 @@ def worker():
                 g = GroupedRecord("c13/g", [odesc(o="o", _generated=gen), desc(_generated=gen)])
                 g.ts = value
                 doors["grouped-assign"] = g.ts
+                import copy as _copy
+                import pickle as _pickle
+
+                doors["copy"] = _copy.copy(x)
+                doors["deepcopy-of-record"] = _copy.deepcopy(desc(ts=x, _generated=gen)).ts
+                doors["pickle"] = _pickle.loads(_pickle.dumps(x))
+                doors["replace-copy"] = desc(ts=x, _generated=gen)._replace(_source="s").ts
                 for door, got in doors.items():
                     if not isinstance(got, ft.datetime) or got.tzinfo is None:
                         res["viol"].append(["door:%s:not-an-aware-timestamp:%s" % (door, form), {"got": repr(got)[:60]}])
@@ -303,7 +313,8 @@ def worker():
             pass
     for order in ("fwd", "rev"):
         seq = vals if order == "fwd" else vals[::-1]
-        recs_ = [desc(ts=x, _generated=gen) for _, x in seq]
+        # two record types alternate; their timestamp fields have different names
+        recs_ = [(desc(ts=x, _generated=gen) if i % 2 == 0 else wdesc(when=x, note="n", _generated=gen)) for i, (_, x) in enumerate(seq)]
 
         def judge_seq(fmt, got, keep, same_offset=True):
             res = {"spec": "seq:" + order, "form": fmt, "viol": [], "h": {}}
@@ -329,7 +340,7 @@ def worker():
                 w.write(r)
             w.flush()
             w.fp = None
-            judge_seq("stream", [r.ts for r in RecordStreamReader(io.BytesIO(buf.getvalue()))], range(len(seq)))
+            judge_seq("stream", [tsof(r) for r in RecordStreamReader(io.BytesIO(buf.getvalue()))], range(len(seq)))
         except Exception as e:  # noqa: BLE001
             print(json.dumps({"spec": "seq:" + order, "form": "stream", "viol": [["stream:sequence:raises-%s" % type(e).__name__, {"error": repr(e)[:120]}]], "h": {}}))
         try:
@@ -339,7 +350,7 @@ def worker():
             for r in recs_:
                 lines.append(p.pack(r))
             q = JsonRecordPacker()
-            got = [o.ts for o in (q.unpack(ln) for ln in lines) if hasattr(o, "ts")]
+            got = [tsof(o) for o in (q.unpack(ln) for ln in lines) if hasattr(o, "ts") or hasattr(o, "when")]
             judge_seq("json", got, range(len(seq)))
         except Exception as e:  # noqa: BLE001
             print(json.dumps({"spec": "seq:" + order, "form": "json", "viol": [["json:sequence:raises-%s" % type(e).__name__, {"error": repr(e)[:120]}]], "h": {}}))
@@ -351,7 +362,8 @@ def worker():
             w.flush()
             w.close()
             rd = RecordReader("sqlite://" + path)
-            judge_seq("sqlite", [r.ts for r in rd], range(len(seq)))
+            # (the reader goes table by table: the first type's rows, then the second's)
+            judge_seq("sqlite", [tsof(r) for r in rd], list(range(0, len(seq), 2)) + list(range(1, len(seq), 2)))
         except Exception as e:  # noqa: BLE001
             print(json.dumps({"spec": "seq:" + order, "form": "sqlite", "viol": [["sqlite:sequence:raises-%s" % type(e).__name__, {"error": repr(e)[:120]}]], "h": {}}))
         finally:
@@ -368,7 +380,7 @@ def worker():
                     pass
             w = RecordWriter(path)
             for i in keep:
-                w.write(recs_[i])
+                w.write(desc(ts=seq[i][1], _generated=gen))  # (an Avro file holds one record type)
             w.flush()
             w.close()
             rd = RecordReader(path)
